@@ -45,7 +45,7 @@ class CTransError(Exception):
     pass
 
 
-SIGNED = {'int', 'rci_t', 'wi_t', 'long', 'long long', 'signed', 'signed int', 'BIT', 'ssize_t', 'ptrdiff_t', 'int64_t', 'int32_t'}
+SIGNED = {'char', 'signed char', 'int', 'rci_t', 'wi_t', 'long', 'long long', 'signed', 'signed int', 'BIT', 'ssize_t', 'ptrdiff_t', 'int64_t', 'int32_t'}
 U64 = {'word', 'uint64_t', 'unsigned long', 'unsigned long long', 'size_t', 'long unsigned int', 'uintptr_t'}
 U32 = {'unsigned int', 'unsigned', 'uint32_t'}
 U8 = {'uint8_t', 'unsigned char'}
@@ -1202,7 +1202,11 @@ class Fn:
                 return self.seq(rest, k_final, ind)      # releases a header / block: no effect on the modelled memories
             sig = self.tr.sigs.get(fname) if fname not in (self.tr.externs or {}) else None
             if sig and sig['void_outs'] is not None and not sig['outparams']:
+                self.pending = []
                 args = self.call_args(sig, s['inner'][1:])
+                post = ''.join('%slet %s : Int := (%s %s (1 : Int))\n' % (pad, V(pn), V(pn), d) for (pn, d) in self.pending)
+                self.pending = []
+                rest_seq = lambda: post + self.seq(rest, k_final, ind)
                 # the callee returns the new contents of the memories it writes: bind them to the caller's memories
                 # (through `unview` when the argument is a window)
                 out = ''
@@ -1213,13 +1217,13 @@ class Fn:
                 if all(y not in self.malias for y, _ in tmp):
                     bindm = ['mem_' + y for y, _ in tmp]
                     return '%slet %s : %s := (%s %s)\n%s' % (pad, self.tup(bindm), self.tup_type(bindm), self.tr.known_fns[fname],
-                                                            ' '.join(args), self.seq(rest, k_final, ind))
+                                                            ' '.join(args), rest_seq())
                 names = [t_ for _, t_ in tmp]
                 out += '%slet %s := (%s %s)\n' % (pad, names[0] if len(names) == 1 else '(' + ', '.join(names) + ')',
                                                  self.tr.known_fns[fname], ' '.join(args))
                 for y, t_ in tmp:
                     out += self.writeback(y, t_, pad)
-                return out + self.seq(rest, k_final, ind)
+                return out + rest_seq()
             ext = self.pick_ext(fname, s['inner'][1:]) if fname in (self.tr.externs or {}) else None
             if ext is not None:
                 return self.extern_call(fname, ext, s['inner'][1:], None, pad) + self.seq(rest, k_final, ind)
@@ -2036,6 +2040,8 @@ def catalogue(t):
       fuels=['(v_M_ncols).toNat', '(v_M_nrows).toNat', '(v_M_nrows).toNat'])
     F('m4ri/mzp.c', 'mzd_apply_p_left', 'mzdApplyPLeft', fuels=['(v_A_nrows).toNat'])
     F('m4ri/mzp.c', 'mzd_apply_p_left_trans', 'mzdApplyPLeftTrans', fuels=['(v_A_nrows).toNat'])
+    F('m4ri/io.c', 'mzd_from_str', 'mzdFromStr', retlocal='A', fuels=['(v_m).toNat', '(v_n).toNat'],
+      doc='returns a fresh m x n matrix: (0, memory, nrows, ncols)')
     F('m4ri/mzd.c', 'mzd_copy', 'mzdCopy', retparam='N', fuels=['(v_P_nrows).toNat', '(v_P_width).toNat'],
       doc='for a supplied destination N')
     F('m4ri/mzd.c', 'mzd_submatrix', 'mzdSubmatrix', retparam='S',
